@@ -118,6 +118,15 @@ def grep_forbidden(prop=None):
     return hits
 
 
+def leanchecker(prop):
+    """Thorough tier: re-check the compiled property module and its project-local imports with Lean's
+    independent .olean re-checker. Returns (ok, output, modules)."""
+    mods = [f[:-5].replace('/', '.') for f in import_closure([f'NavisModel/Props/{prop}.lean'])]
+    with LeanLock():
+        rc, out = run_cmd(['lake', 'env', 'leanchecker'] + mods, cwd=LEAN, timeout=3000)
+    return rc == 0, out[-1500:], mods
+
+
 def audit(prop):
     """#print axioms on every property theorem.  Returns dict(theorems, ok, axioms, problems)."""
     thms = prop_theorems(prop)
